@@ -54,10 +54,10 @@ def live_suite(ctx, vh, name, args, min_upgrades):
     if slow:
         ctx.indeterminate += len(slow)
         rows = [r for r in rows if r not in slow]
-    # an undisturbed upgrade that ran into the SERVER's upgrade timer (a probe slower than 3-5 s: machine overloaded)
-    # is the commit-window class produced by the environment, not a verdict
-    overload = [r for r in rows if r["fault"] in ("none", "poststall", "slowdiscard")
-                and any("upgradeTimeout exceeded" in e for e in (r.get("serrs") or []))]
+    # a fault-free live upgrade that ran into the SERVER's upgrade timer (5 s) although neither side reported anything
+    # else (a probe slower than 5 s: machine overloaded) is the commit-window class produced by the environment
+    overload = [r for r in rows if r["fault"] == "none" and r["ms"] >= 5000 and not (r.get("cerrs") or [])
+                and (r.get("serrs") or []) and all("upgradeTimeout exceeded" in e for e in r["serrs"])]
     if overload:
         ctx.indeterminate += len(overload)
         ctx.note("%d undisturbed upgrades hit the server's upgrade time-out (overloaded machine)" % len(overload))
